@@ -201,6 +201,12 @@ def to_string(value: JSValue) -> str:
         return s
     if isinstance(value, str):
         return value
+    if isinstance(value, JSArray):
+        # Array.prototype.toString: the elements joined with ",", undefined and null as empty strings
+        return ",".join(
+            "" if elem is UNDEFINED or elem is NULL else to_string(elem)
+            for elem in value._elements
+        )
     # TODO: Handle objects with toString
     return "[object Object]"
 
